@@ -101,7 +101,8 @@ class _Continue(Exception):
 
 
 BUILTINS = {'dict', 'range', 'enumerate', 'str', 'int', 'len', 'abs', 'isinstance', 'tuple', 'bool', 'ValueError', 'Exception',
-            'KeyError', 'NotImplementedError', 'TypeError', 'list', 'sorted', 'set', 'min', 'max'}
+            'KeyError', 'NotImplementedError', 'TypeError', 'list', 'sorted', 'set', 'min', 'max', 'all', 'any', 'zip', 'map',
+            'print', 'repr', 'ConnectionError', 'IndexError', 'AssertionError', 'sum', 'reversed', 'frozenset'}
 
 
 class Folder:
@@ -111,6 +112,8 @@ class Folder:
         self._fresh = set()
         self._keep = []
         self.stubs = {}        # dotted call text -> python callable (declared primitives, e.g. random.shuffle)
+        self.method_stubs = {}  # (class name | module name, function name) -> callable(folder, self_val, args, kw)
+        self.on_stmt = None    # optional hook(stmt, env, mod, ci) called before every statement
         self.steps = 0
         self.max_steps = max_steps
 
@@ -217,9 +220,20 @@ class Folder:
             if nested is not None:
                 return ClsRef(nested)
             raise Unsupported(f'{ci.name}.{name}')
+        if getattr(obj, '_sa_native', False):
+            try:
+                v = getattr(obj, name)
+            except AttributeError:
+                raise Unsupported(f'attribute {name} on native {type(obj).__name__}')
+            return ('pyfunc', v) if callable(v) else v
         if isinstance(obj, str) and name in ('upper', 'lower', 'capitalize', 'strip', 'lstrip', 'rstrip',
                                               'isupper', 'isdigit', 'startswith', 'endswith', 'split', 'join',
-                                              'replace'):
+                                              'replace', 'encode', 'format', 'title', 'swapcase', 'find', 'index',
+                                              'count', 'islower', 'isalpha', 'isalnum', 'isspace', 'zfill', 'ljust',
+                                              'rjust', 'partition', 'rpartition', 'splitlines', 'rsplit', 'casefold',
+                                              'rfind', 'center'):
+            return ('strmethod', obj, name)
+        if isinstance(obj, bytes) and name in ('decode', 'startswith', 'endswith', 'strip', 'rstrip', 'split', 'find'):
             return ('strmethod', obj, name)
         if isinstance(obj, dict) and name in ('get', 'items', 'keys', 'values'):
             return ('strmethod', obj, name)
@@ -232,9 +246,9 @@ class Folder:
         import re as _re2
         if isinstance(obj, _re2.Match) and name in ('group', 'groups', 'start', 'end', 'span'):
             return ('strmethod', obj, name)
-        if isinstance(obj, list) and name in ('append', 'index', 'count'):
+        if isinstance(obj, list) and name in ('append', 'index', 'count', 'pop', 'extend', 'insert', 'remove', 'clear', 'copy'):
             return ('strmethod', obj, name)
-        if isinstance(obj, set) and name in ('add',):
+        if isinstance(obj, set) and name in ('add', 'remove', 'discard', 'copy', 'union', 'issubset', 'pop', 'clear', 'update'):
             return ('strmethod', obj, name)
         raise Unsupported(f'attribute {name} on {type(obj).__name__}')
 
@@ -248,6 +262,10 @@ class Folder:
 
     def _invoke(self, mod: ModuleInfo, ci: Optional[ClassInfo], fn: ast.FunctionDef, self_val, args, kw,
                 static=False):
+        if self.method_stubs:
+            stub = self.method_stubs.get((ci.name if ci is not None else mod.name, fn.name))
+            if stub is not None:
+                return stub(self, self_val, list(args), dict(kw))
         params = [a.arg for a in fn.args.args]
         env: Dict[str, Any] = {}
         pos = list(args)
@@ -282,7 +300,11 @@ class Folder:
             self.steps += 1
             if self.steps > self.max_steps:
                 raise Unsupported('step limit')
-            if isinstance(st, ast.Return):
+            if self.on_stmt is not None:
+                self.on_stmt(st, env, mod, ci)
+            if isinstance(st, ast.With) and self.allow_loops:
+                self._with(st, 0, env, mod, ci)
+            elif isinstance(st, ast.Return):
                 raise _Return(self._eval(st.value, env, mod, ci) if st.value is not None else None)
             elif isinstance(st, ast.If):
                 if self._truth(self._eval(st.test, env, mod, ci)):
@@ -356,6 +378,38 @@ class Folder:
                 raise _Continue()
             else:
                 raise Unsupported(f'statement {type(st).__name__} in folded function')
+
+    def _with(self, st, i, env, mod, ci):
+        if i == len(st.items):
+            self._block(st.body, env, mod, ci)
+            return
+        it = st.items[i]
+        mgr = self._eval(it.context_expr, env, mod, ci)
+        if isinstance(mgr, DV):
+            entered = self._getattr_call(mgr, '__enter__', [], {})
+        elif getattr(mgr, '_sa_native', False):
+            entered = mgr.__enter__()
+        else:
+            raise Unsupported('with over ' + type(mgr).__name__)
+        if it.optional_vars is not None:
+            self._assign(it.optional_vars, entered, env)
+        try:
+            self._with(st, i + 1, env, mod, ci)
+        except (_Return, _Break, _Continue):
+            self._exit_mgr(mgr, None)
+            raise
+        except FoldRaise as r:
+            if self._truth(self._exit_mgr(mgr, r)):
+                return
+            raise
+        else:
+            self._exit_mgr(mgr, None)
+
+    def _exit_mgr(self, mgr, exc):
+        a = [None, None, None] if exc is None else [exc.kind, exc, None]
+        if isinstance(mgr, DV):
+            return self._getattr_call(mgr, '__exit__', a, {})
+        return mgr.__exit__(*a)
 
     def _assign(self, t, v, env):
         if isinstance(t, ast.Name):
@@ -628,7 +682,7 @@ class Folder:
                 it = self._eval(g.iter, env2, mod, ci)
                 if isinstance(it, ClsRef) and it.cls.is_enum:
                     it = [EV(it.cls, n, v) for n, v in it.cls.enum_members().items()]
-                if isinstance(it, dict):
+                if isinstance(it, (dict, type({}.items()), type({}.keys()), type({}.values()))):
                     it = list(it)
                 if not isinstance(it, (list, tuple, range, str, frozenset, set)):
                     raise Unsupported('comprehension over ' + type(it).__name__)
@@ -665,10 +719,26 @@ class Folder:
         # super().m(...)
         if isinstance(e.func, ast.Attribute) and isinstance(e.func.value, ast.Call) \
                 and isinstance(e.func.value.func, ast.Name) and e.func.value.func.id == 'super':
-            raise Unsupported('super() in folded function')
+            selfv = env.get('self')
+            if not isinstance(selfv, DV) or ci is None:
+                raise Unsupported('super() outside a method of a folded object')
+            mro = self.repo.mro(selfv.cls)
+            if ci not in mro:
+                raise Unsupported('super(): defining class not in the MRO of self')
+            for c in mro[mro.index(ci) + 1:]:
+                if e.func.attr in c.methods:
+                    sargs = [self._eval(a, env, mod, ci) for a in e.args]
+                    skw = {k.arg: self._eval(k.value, env, mod, ci) for k in e.keywords}
+                    return self._invoke(c.module, c, c.methods[e.func.attr], selfv, sargs, skw)
+            stub = self.stubs.get('super().' + e.func.attr)
+            if stub is not None:
+                return stub(selfv, *[self._eval(a, env, mod, ci) for a in e.args],
+                            **{k.arg: self._eval(k.value, env, mod, ci) for k in e.keywords})
+            raise Unsupported(f'super().{e.func.attr} not found in the package')
         ftxt = ast.unparse(e.func)
         if ftxt in self.stubs:
-            return self.stubs[ftxt](*[self._eval(a, env, mod, ci) for a in e.args])
+            return self.stubs[ftxt](*[self._eval(a, env, mod, ci) for a in e.args],
+                                    **{k.arg: self._eval(k.value, env, mod, ci) for k in e.keywords})
         f = self._eval(e.func, env, mod, ci)
         args = [self._eval(a, env, mod, ci) for a in e.args]
         kw = {k.arg: self._eval(k.value, env, mod, ci) for k in e.keywords}
@@ -694,7 +764,7 @@ class Folder:
             return self._eval(node.body, env2, cmod, cci)
         if isinstance(f, tuple) and f[0] == 'strmethod':
             try:
-                return getattr(f[1], f[2])(*args)
+                return getattr(f[1], f[2])(*args, **kw)
             except Exception as ex:  # noqa
                 raise FoldRaise(type(ex).__name__, str(ex))
         if isinstance(f, tuple) and f[0] == 'builtin':
@@ -734,6 +804,25 @@ class Folder:
                 return range(*args)
             if n == 'enumerate':
                 return list(enumerate(*args))
+            if n in ('all', 'any'):
+                return (all if n == 'all' else any)(self._truth(x) for x in args[0])
+            if n == 'zip':
+                return list(zip(*[list(a) for a in args]))
+            if n == 'map':
+                fn_ = self._as_callable(args[0])
+                if isinstance(fn_, tuple):
+                    raise Unsupported('map over a non-lambda')
+                return [fn_(*xs) for xs in zip(*[list(a) for a in args[1:]])]
+            if n == 'print':
+                return None
+            if n == 'repr':
+                return repr(args[0])
+            if n == 'sum':
+                return sum(args[0])
+            if n == 'reversed':
+                return list(reversed(args[0]))
+            if n == 'frozenset':
+                return frozenset(args[0]) if args else frozenset()
             if n == 'isinstance':
                 v, c = args
                 if isinstance(c, ClsRef):
